@@ -33,6 +33,10 @@ def configs(tier):
         # reads: everything the peer had accepted must still come out before the end-of-stream, however recv() cuts it
         c.append(("tp=%s,script=S5,style=spec,%s" % (tp, M), dq if q else dt - 1))
         c.append(("tp=%s,script=S5,ma=b,mb=b,%s" % (tp, M), (dq if q else dt) - 1))
+        # a blocking 40000-byte send that is accepted in part, has to wait, and is interrupted by a signal while it
+        # waits (short write / stall + signal): the count of what was accepted must come back, not -1
+        for resend in ((1, 0) if (tp == "btcp" or not q) else (1,)):
+            c.append(("tp=%s,script=S2,ma=b,mb=nb,sig=1,resend=%d,%s" % (tp, resend, M), 3 if tp == "btcp" else 2))
         # retry policies after EAGAIN
         for pol in ("same", "longer", "different", "shorter"):
             c.append(("tp=%s,script=R1,retry=%s,%s" % (tp, pol, M), dq if q else min(dt, 4)))
@@ -44,4 +48,4 @@ def configs(tier):
 def run(chk, tier, jobs, deadline):
     chk.assumptions += ASSUME
     msgfamily.run_configs(chk, "h_msg", configs(tier), PREFIXES, jobs,
-                          deadline or (420 if tier == "quick" else 1500))
+                          deadline or (600 if tier == "quick" else 1500))
